@@ -80,22 +80,25 @@ def unit_name(u):
 
 
 def shell_text(script, uname, tag, mdir, to_file=True):
+    """The two commands of a unit.  A script is a string of per-attempt outcomes (the last one repeats):
+    S succeed, F fail (exit 3, nothing produced), O succeed but produce nothing, W produce the result and
+    then fail in the second command.  "FS" = fail, then succeed; "SF" = succeed, then fail; ..."""
     m = shlex.quote(str(mdir))
     cnt = f"{m}/{uname}.cnt"
     # the result goes into the declared return file, or to stdout for jobs that declare none
     write = f"printf %s {uname}:{tag}:n$n" + (" > res.txt" if to_file else "")
-    head = f"echo x >> {cnt}; n=$(wc -l < {cnt}); n=$((n+0)); "
-    if script == "S":
-        return head + write, ":"
-    if script == "F":
-        return head + "exit 3", ":"
-    if script == "FS":
-        return head + f"if [ $n -le 1 ]; then exit 3; fi; {write}", ":"
-    if script == "O":
-        return head + ":", ":"
-    if script == "W":
-        return head + write, "exit 3"
-    raise HarnessError(f"unknown script {script}")
+    first = {"S": write, "F": "exit 3", "O": ":", "W": write}
+    second = {"S": ":", "F": ":", "O": ":", "W": "exit 3"}
+    if not script or any(c not in first for c in script):
+        raise HarnessError(f"unknown script {script}")
+
+    def case(table):
+        arms = "".join(f"{i + 1}) {table[c]};; " for i, c in enumerate(script[:-1]))
+        return f"case $n in {arms}*) {table[script[-1]]};; esac"
+
+    c0 = f"echo x >> {cnt}; n=$(wc -l < {cnt}); n=$((n+0)); " + case(first)
+    c1 = f"n=$(wc -l < {cnt}); n=$((n+0)); " + case(second)
+    return c0, c1
 
 
 # job declarations: with a return file / without return_files (None, results on stdout, like
@@ -232,18 +235,9 @@ class Model:
 
 
 def script_outcome(script, n):
-    """(all commands succeeded, return file written) of execution number n (1-based)."""
-    if script == "S":
-        return True, True
-    if script == "F":
-        return False, False
-    if script == "FS":
-        return (False, False) if n <= 1 else (True, True)
-    if script == "O":
-        return True, False
-    if script == "W":
-        return False, True
-    raise HarnessError(script)
+    """(all commands succeeded, result produced) of execution number n (1-based)."""
+    c = script[min(n, len(script)) - 1]
+    return {"S": (True, True), "F": (False, False), "O": (True, False), "W": (False, True)}[c]
 
 
 class World:
@@ -295,6 +289,7 @@ class World:
         self.w.mkdir(parents=True)
         self.mdir.mkdir()
         (self.w / "scratch").mkdir()
+        self.litter()
         if self.kind == "single":
             lib = ml.MoleculeLibrary(self.src_path, readonly=False)
         else:
@@ -324,6 +319,28 @@ class World:
         _forget(dest)
         self.model.dest = dict(pre)
 
+    def litter(self):
+        """Leftovers of earlier (killed / failed) runs that every run has to live with: stray files next to the
+        cache files of every unit, and an abandoned scratch directory with a result file in it."""
+        import msgpack
+
+        stale = msgpack.dumps({"stdouts": {"main": "STALE"}, "stderrs": {"main": ""}, "exitcode": 0, "files": {"res.txt": b"STALE"}, "input_hash": b"stale"})
+        for sub in ("input", "output", "work"):
+            (self.cache_dir / sub).mkdir(parents=True, exist_ok=True)
+        first = None
+        for k in self.keys:
+            for u in self.units[k]:
+                un = unit_name(u)
+                first = first or un
+                (self.cache_dir / "output" / f"{un}.err").write_bytes(stale)
+                (self.cache_dir / "output" / f"{un}.out~").write_bytes(stale)
+        (self.cache_dir / "output" / f"{first}.out.tmp").write_bytes(stale[: len(stale) // 2])
+        (self.cache_dir / "input" / f"{first}.inp.bak").write_bytes(b"\x00garbage")
+        d = self.w / "scratch" / f"{first}__stale0"
+        d.mkdir()
+        (d / "res.txt").write_bytes(b"STALE")
+        (self.cache_dir / "work" / "core.stale").write_bytes(b"x")
+
     # ---- snapshots
     def save(self, name):
         d = self.root / f"snap-{name}"
@@ -350,6 +367,10 @@ class World:
         out = []
         for ca in cacts:
             for kw in (False, True):
+                if kw and ca[0] != "none" and self.strict and not self.ctx.thorough:
+                    # quick tier, strict mode: a changed input invalidates every cached output anyway, so
+                    # 'delete/corrupt one output AND change the input' is explored in the thorough tier only
+                    continue
                 for fresh in (False, True):
                     out.append((ca, kw, fresh))
         return out
@@ -480,7 +501,7 @@ class World:
             _release(dest)
         after = self.read_attempts()
         executed = {un: after[un] - before[un] for un in after}
-        residue = sorted(p.name for p in (self.w / "scratch").iterdir())
+        residue = sorted(p.name for p in (self.w / "scratch").iterdir() if not p.name.endswith("__stale0"))
         return exc, where, executed, residue
 
     def run(self, case):
@@ -488,6 +509,12 @@ class World:
         ctx = self.ctx
         m = self.model
         kind = self.label
+        outdir = self.cache_dir / "output"
+        pre_bytes = {}
+        for k in self.keys:
+            for u in self.units[k]:
+                f = outdir / f"{unit_name(u)}.out"
+                pre_bytes[unit_name(u)] = f.read_bytes() if f.is_file() else None
         exc, where, executed, residue = self.execute(case)
         ctx.count(transitions=1 + sum(executed.values()))
 
@@ -506,6 +533,7 @@ class World:
         todo = [k for k in self.keys if k not in m.dest]
         newdest = dict(m.dest)
         how = {}
+        result = {}  # unit -> what this run has for it: the record of its execution, or the reused cached record
         for k in self.keys:
             for u in self.units[k]:
                 un = unit_name(u)
@@ -530,15 +558,31 @@ class World:
                     n = m.attempts.get(un, 0) + 1
                     m.attempts[un] = n
                     cok, hasfile = script_outcome(self.plan[u], n)
-                    m.cache[un] = (m.tag, cok, hasfile, f"{un}:{m.tag}:n{n}".encode() if hasfile else None)
+                    rec = (m.tag, cok, hasfile, f"{un}:{m.tag}:n{n}".encode() if hasfile else None)
+                    result[un] = rec
                     how[un] = "executed"
+                    if cok and (hasfile or self.decl != "file"):
+                        m.cache[un] = rec  # the run succeeded: its output is the cached output from now on
+                    else:
+                        # What a FAILED run leaves in the cache is not the property's business (its output, nothing,
+                        # or the previous output untouched): the model follows what is there, because later reuse
+                        # decisions legitimately depend on it.  The result of THIS run is `rec` in every case.
+                        f = outdir / f"{un}.out"
+                        now = f.read_bytes() if f.is_file() else None
+                        if now is None:
+                            m.cache.pop(un, None)
+                        elif now == pre_bytes[un] and un in m.cache:
+                            pass
+                        else:
+                            m.cache[un] = rec
                 else:
+                    result[un] = m.cache.get(un)
                     how[un] = "from-cache"
         if not ok:
             return False
         outcome_class = {}
         for k in todo:
-            recs = [m.cache.get(unit_name(u)) for u in self.units[k]]
+            recs = [result.get(unit_name(u)) for u in self.units[k]]
             if all(r is not None and (r[0] == m.tag or not self.strict) and r[1] and r[2] for r in recs):
                 parts = [b"post(" + r[3] + b")" for r in recs]
                 newdest[k] = parts[0] if self.kind == "single" else b"|".join(parts)
@@ -567,7 +611,19 @@ class World:
                 ok = False
             elif k in real and k not in newdest:
                 cls = outcome_class.get(k, "unknown-key")
-                viol(f"jobmap[{kind}]:destination:item-stored-although-{cls}", f"{k} ({cls}) was stored in the destination with value {real[k][:60]!r}")
+                # a value computed by an EARLIER execution than the one this run made for the unit = a stale result
+                import re as _re
+
+                stale = False
+                for u in self.units.get(k, []):
+                    un = unit_name(u)
+                    for mm in _re.finditer(rb"(?:^|[(|])" + _re.escape(un.encode()) + rb":[A-Z]:n(\d+)\)", real[k]):
+                        if how.get(un) == "executed" and int(mm.group(1)) < m.attempts.get(un, 0):
+                            stale = True
+                viol(
+                    f"jobmap[{kind}]:destination:item-stored-although-{cls}" + (";stale-result-of-an-earlier-run" if stale else ""),
+                    f"{k} ({cls} in this run) was stored in the destination with value {real[k][:60]!r}" + (" - the result of an earlier run with a different input" if stale else ""),
+                )
                 ok = False
             elif real[k] != newdest[k]:
                 if k == FOREIGN:
@@ -838,6 +894,8 @@ def run(ctx):
         "for a job declared without return files the result is what the named command prints; an empty stdout makes post-processing raise (no processed result), and such a run is a plain success for the cache (exit 0): it must not be executed again",
         "strict_hash=False means 'do not compare hashes': the successful cached output of a different input is reused (and its result stored); outputs of failed runs and unreadable outputs are still never reused",
         "keys: alphanumerics, '.', '-', '_' (keys with '/' or blanks cannot be used as cache file names by the unchanged code: out of scope)",
+        "every run starts with leftovers of earlier runs in place: the .inp/.out files of all earlier runs of the history plus stray <unit>.err / .out~ / .out.tmp / .inp.bak files and an abandoned scratch directory holding a result file",
+        "what a FAILED execution leaves in the cache (its own output, nothing, or the previous output untouched) is not constrained; the model follows what is found there for later reuse decisions - the RESULT of the run is always that of the run's own execution: a failed item is absent from the destination, never served from an earlier run's output",
         "n_workers=1; the destination is a plain Collection[bytes] on the Ukv backend, the sources are a MoleculeLibrary / ConformerLibrary",
     ]
     parts = []
@@ -856,6 +914,15 @@ def run(ctx):
         # strict_hash=False: every history of 1..2 runs again (hashes ignored, failed / unreadable outputs still not reused)
         parts += [(2, T, False, c) for c in chunk(configs("single", k2, single, strict=False, foreign_opts=NF), nproc * 2)]
         parts += [(2, T, False, c) for c in chunk(configs("vector", k2, [p for p in vec5 if "O" not in p and "FS" not in p], strict=False, foreign_opts=NF), nproc * 3)]
+        # outcomes that get WORSE from one execution to the next (succeed, then fail / then produce nothing / then fail
+        # after producing the result) x input same/changed x destination same/fresh: an item that fails now must not be
+        # served from what an earlier run left behind
+        worse = [("SF",), ("SO",), ("SW",)]
+        parts += [(2, T, False, c) for c in chunk(configs("single", k2, worse, foreign_opts=NF), nproc * 2)]
+        parts += [(2, T, False, c) for c in chunk(configs("vector", k2, [("SF", "S"), ("S", "SO")], foreign_opts=NF), nproc * 2)]
+        parts += [(2, T, False, c) for c in chunk(configs("single", k2, [("SF",), ("SW",)], "none", foreign_opts=NF, prepop=False), nproc)]
+        parts += [(2, T, False, c) for c in chunk(configs("single", k2, [("SF",)], strict=False, foreign_opts=NF, prepop=False), nproc)]
+        ctx.bound["scripts"] = "per-attempt outcome strings over {S,F,O,W}: S F FS O W (everywhere); SF SO SW (single), SF / SO on one conformer (vectorised), 1..2 runs"
         # key alphabets
         for name, ks in KEYSETS.items():
             parts += [(2, T, False, c) for c in chunk(configs("single", ks, [("S",), ("F",)], foreign_opts=NF, prepop=False), nproc)]
@@ -871,7 +938,7 @@ def run(ctx):
         parts += [(3, T, False, x) for x in chunk(configs("single", k2, single), nproc * 2)]
         parts += [(3, T, False, x) for x in chunk(configs("vector", k2, vec5), nproc * 4)]
         # 1..2 runs: every per-conformer plan pair on k0; 3 items; all corruption kinds
-        parts += [(2, CK, False, x) for x in chunk(configs("vector", k2, {"k0": vec25, "k1": vec5}), nproc * 4)]
+        parts += [(2, CK[:2], False, x) for x in chunk(configs("vector", k2, {"k0": vec25, "k1": vec5}), nproc * 4)]
         parts += [(2, T, False, x) for x in chunk(configs("single", k3, single), nproc * 4)]
         parts += [(2, T, False, x) for x in chunk(configs("vector", k3, vec5), nproc * 4)]
         # jobs declared without return files (None: result on stdout; ())
@@ -881,8 +948,17 @@ def run(ctx):
         parts += [(2, T, False, x) for x in chunk(configs("vector", k2, [("S", "S"), ("F", "S"), ("S", "W")], "empty"), nproc * 2)]
         parts += [(2, T, True, x) for x in chunk(configs("single", k2, [("S",), ("F",)], "none"), 18)]
         ctx.bound["declarations"] = "return_files=None: single 1..3 runs (5 scripts), vectorised 1..2 runs (5 plans, 4 corruption kinds); return_files=(): single (5 scripts) and vectorised (3 plans) 1..2 runs; real runner: single None-declared S/F 1..2 runs"
-        # strict_hash=False
         NF = (False,)
+        # outcomes that change from execution to execution, 1..3 runs
+        seqs = [("SF",), ("SO",), ("SW",), ("SFS",), ("SSF",), ("FSF",)]
+        parts += [(3, T, False, x) for x in chunk(configs("single", k2, {"k0": seqs, "k1": [("S",), ("SF",)]}, foreign_opts=NF), nproc * 3)]
+        parts += [(2, CK, False, x) for x in chunk(configs("single", k2, seqs, foreign_opts=NF), nproc * 2)]
+        parts += [(2, T, False, x) for x in chunk(configs("vector", k2, [("SF", "S"), ("S", "SO"), ("SW", "SF"), ("FS", "SF")], foreign_opts=NF), nproc * 3)]
+        parts += [(2, T, False, x) for x in chunk(configs("single", k2, [("SF",), ("SW",), ("SO",)], "none", foreign_opts=NF), nproc)]
+        parts += [(2, T, False, x) for x in chunk(configs("single", k2, [("SF",), ("SW",)], strict=False, foreign_opts=NF), nproc)]
+        parts += [(2, T, True, x) for x in chunk(configs("single", k2, [("SF",)], foreign_opts=NF, prepop=False), 4)]
+        ctx.bound["scripts"] = "per-attempt outcome strings over {S,F,O,W}: S F FS O W everywhere; SF SO SW SFS SSF FSF single 1..3 runs; vectorised SF/SO/SW/FS mixes 1..2 runs; real runner SF"
+        # strict_hash=False
         parts += [(3, T, False, x) for x in chunk(configs("single", k2, single, strict=False, foreign_opts=NF), nproc * 2)]
         parts += [(2, CK, False, x) for x in chunk(configs("vector", k2, vec5, strict=False, foreign_opts=NF), nproc * 3)]
         parts += [(2, T, False, x) for x in chunk(configs("single", k3, single, strict=False, foreign_opts=NF), nproc * 3)]
@@ -903,7 +979,7 @@ def run(ctx):
         ctx.bound.update(
             {
                 "runs_1..3": "2 items: single (5 scripts), vectorised (5 plans)",
-                "runs_1..2": "2 items vectorised with all 25 per-conformer plans on k0, 4 corruption kinds; 3 items single (4 corruption kinds) and vectorised",
+                "runs_1..2": "2 items vectorised with all 25 per-conformer plans on k0, 2 corruption kinds; 3 items single (4 corruption kinds) and vectorised",
                 "real_subprocess_runner": "2 items: single 1..2 runs (all), vectorised 1 run (all)",
             }
         )
